@@ -16,3 +16,7 @@ import IrisVerif.Props.C19
 import IrisVerif.Props.C20
 import IrisVerif.Props.C01
 import IrisVerif.Props.C06
+import IrisVerif.Props.C14
+import IrisVerif.Props.C04
+import IrisVerif.Props.C18
+import IrisVerif.Props.C15
